@@ -1459,6 +1459,9 @@ func exec(c px.Context, op string, args []sx.Sexp) core.Result {
 	if op == "msg" {
 		return execMsg(c, args)
 	}
+	if op == "goobj" {
+		return execGoObj(c, args)
+	}
 	deco := op == "objd"
 	if deco {
 		op = "obj"
